@@ -5,6 +5,30 @@ use bemodel::Model;
 use serde_json::{json, Value};
 
 pub fn worker_handle(req: &Value) -> Value {
+    // models produced by the converter itself (with or without the overrides and extra data taken from HULC's result
+    // files): written, read back and compared with the model in memory
+    if req.get("convert").is_some() || req.get("collect").is_some() {
+        let r = catch(std::panic::AssertUnwindSafe(|| -> Result<Value, String> {
+            let m0: Model = if let Some(dir) = req["collect"].as_str() {
+                hulc2model::collect_hulc_data(dir, true, true).map_err(|e| format!("convert: {}", e))?
+            } else {
+                let p = req["convert"].as_str().unwrap_or("");
+                let bytes = std::fs::read(p).map_err(|e| e.to_string())?;
+                let text = String::from_utf8(bytes.clone()).unwrap_or_else(|_| bytes.iter().map(|b| *b as char).collect());
+                crate::convert::convert_any(&text, req["fmt"].as_str().unwrap_or("ctehexml"))?
+            };
+            let j1 = m0.as_json().map_err(|e| format!("ser: {}", e))?;
+            let m1 = Model::from_json(&j1).map_err(|e| format!("reload: {}", e))?;
+            let j2 = m1.as_json().map_err(|e| format!("ser2: {}", e))?;
+            Ok(json!({"loads": true, "debug_equal": format!("{:?}", m0) == format!("{:?}", m1), "text_equal": j1 == j2, "value_equal": true, "out": 0}))
+        }));
+        return match r {
+            Ok(Ok(v)) => v,
+            Ok(Err(e)) if e.starts_with("convert: ") || e.starts_with("parse: ") || e.starts_with("panic: ") => json!({"skip": true, "err": e}),
+            Ok(Err(e)) => json!({"loads": false, "debug_equal": false, "text_equal": false, "value_equal": false, "err": e, "out": 0}),
+            Err(site) => json!({"loads": false, "debug_equal": false, "text_equal": false, "value_equal": false, "err": format!("panic {}", site), "out": 0}),
+        };
+    }
     let text: String = match req["json"].as_str() {
         Some(t) => t.to_string(),
         None => std::fs::read_to_string(req["path"].as_str().unwrap_or("")).unwrap_or_default(),
